@@ -2,6 +2,7 @@
 # Runs the pinned suite in ${1:-/repo}; succeeds iff exactly the 5 always-failing tests fail and 356 pass.
 R=${1:-/repo}
 cd "$R" || exit 2
+export PYTHONPATH="$R/src"
 OUT=$(/venv/bin/python -m pytest -q -p no:cacheprovider --timeout=900 --continue-on-collection-errors -n 8 2>&1)
 echo "$OUT" | tail -n 1
 F=$(echo "$OUT" | grep '^FAILED' | sed -e 's/ - .*//' | sort | tr '\n' ' ')
